@@ -30,6 +30,10 @@ pub struct Trace {
     /// (files beyond 64 KiB / 16 MiB; the final word decides between a valid end and a late parse error)
     #[serde(default)]
     pub big: Option<(u32, u32)>,
+    /// header variant of the scale file: 0 plain, 1 byte-swapped magic, 2 junk in the unused version bytes,
+    /// 3 wrong magic, 4 version 0.99, 5 all-ones bound
+    #[serde(default)]
+    pub big_hdr: u8,
     /// hand the bytes over through a named pipe instead of a regular file (a readable input file whose
     /// size is not known in advance and which delivers short reads)
     #[serde(default)]
@@ -208,15 +212,17 @@ impl Property for C20 {
         };
         let share = if tier == Tier::Quick { 12 } else { 8 };
         let eintr_at = if rng.chance(1, share) { Some(rng.range(1, 2) as u32) } else { None };
-        let big = if rng.chance(1, 4000) {
-            let count = *rng.pick(&[8_190u32, 8_192, 2_097_149, 2_097_150, 2_097_152, 2_200_000]);
+        let big_hdr = if rng.chance(1, 2) { 0 } else { rng.range(1, 5) as u8 };
+        let big = if rng.chance(1, 2000) {
+            // (8 bytes per instruction: 64 KiB, 1 MiB and 16 MiB boundaries)
+            let count = *rng.pick(&[8_190u32, 8_192, 131_068, 131_069, 131_070, 131_072, 140_000, 2_097_149, 2_097_150, 2_097_152, 2_200_000]);
             Some((count, *rng.pick(&[0u32, 0x0002_0011, 0x0001_FFFF, 0x0001_0000])))
         } else {
             None
         };
         let via_fifo = big.is_none() && eintr_at.is_none() && rng.chance(1, 12);
         let affix = if big.is_none() && rng.chance(1, 7) { Some((rng.pick(PREFIXES).to_vec(), rng.pick(SUFFIXES).to_vec())) } else { None };
-        Trace { source, faults, eintr_at: if big.is_some() { None } else { eintr_at }, big, via_fifo, affix }
+        Trace { source, faults, eintr_at: if big.is_some() { None } else { eintr_at }, big, big_hdr, via_fifo, affix }
     }
 
     fn execute(t: &Trace, cov: &mut Cov) -> RunOut {
@@ -225,7 +231,15 @@ impl Property for C20 {
             (Some((count, tail)), _) => {
                 cov.hit("reached.file_beyond_16_mib_or_64_kib");
                 let mut w: Vec<u32> = Vec::with_capacity(6 + 2 * *count as usize);
-                w.extend_from_slice(&[MAGIC, 0x0001_0000, 0, 1, 0]);
+                let hdr: [u32; 5] = match t.big_hdr {
+                    1 => [MAGIC.swap_bytes(), 0x0001_0000, 0, 1, 0],
+                    2 => [MAGIC, 0xA501_00C3, 0, 1, 0],
+                    3 => [MAGIC ^ 0x100, 0x0001_0000, 0, 1, 0],
+                    4 => [MAGIC, 0x0000_6300, 0, 1, 0],
+                    5 => [MAGIC, 0x0001_0600, 0xFFFF_FFFF, 0xFFFF_FFFF, 0xFFFF_FFFF],
+                    _ => [MAGIC, 0x0001_0000, 0, 1, 0],
+                };
+                w.extend_from_slice(&hdr);
                 for _ in 0..*count {
                     w.push(0x0002_0011);
                     w.push(1);
@@ -397,6 +411,11 @@ impl Property for C20 {
             }
         }
         if let Some((count, tail)) = t.big {
+            if t.big_hdr != 0 {
+                let mut c = t.clone();
+                c.big_hdr = 0;
+                out.push(c);
+            }
             for c2 in [count / 2, count - 1] {
                 if c2 > 0 && c2 != count {
                     let mut c = t.clone();
